@@ -51,6 +51,37 @@ def units_spelling_probe(ctx):
     return hit
 
 
+def narrow_field_cases(ctx, n):
+    """Stratum: one- and two-bit fields of every kind (associated field 204001/204002,
+    skipped local 206001/206002, numeric elements cut down by 201YYY, 1-bit flag
+    tables), several subsets with differing values, compressed and not."""
+    import tmplgen
+    rng = ctx.rng
+    p = tmplgen.pools(33)
+    out = []
+    for _ in range(n):
+        ids = []
+        for _ in range(rng.randint(1, 3)):
+            k = rng.choice(['assoc', 'skipped', 'cut', 'flag', 'assoc-marker'])
+            w = rng.choice([1, 1, 2])
+            if k == 'assoc':
+                ids += [204000 + w, 31021] + [rng.choice(p.numeric + p.codeflag) for _ in range(rng.randint(1, 2))] + [204000]
+            elif k == 'skipped':
+                ids += [206000 + w, rng.choice([63255, 48255, 50001])]
+            elif k == 'cut':
+                e = rng.choice([i for i in p.numeric if 3 <= p.b[i][4] <= 20])
+                ids += [201000 + 128 - (p.b[e][4] - w), e, 201000]
+            elif k == 'flag':
+                ids += [rng.choice([i for i in p.codeflag if p.b[i][4] <= 2] or [31031])]
+            else:
+                ids += [204000 + w, 31021, rng.choice(p.numeric), 204000]
+        out.append({'ids': ids, 'version': 33, 'edition': 4, 'nsub': rng.choice([2, 3, 4, 6]),
+                    'compressed': rng.random() < 0.7, 'forced': '-', 'seed': rng.randrange(1, 2 ** 32),
+                    'maxrep': 3, 'features': {'stratum-narrow-fields': 1}, 'shared': False})
+        out[-1]['shared'] = out[-1]['compressed']
+    return out
+
+
 def run(ctx):
     ctx.rule = ('templates drawn from a grammar over the real Table B/D (sequences, nested fixed/delayed replication, operators '
                 '201-208, 221, bitmap constructs 222-225/232/235-237) x values from the model-side generator (0, 1, max-1, '
@@ -62,6 +93,7 @@ def run(ctx):
     n = ctx.n(500, 12000)
     cases = P.build_cases(ctx, n, gen_kwargs=dict(size=7), nsub_choices=(1, 1, 2, 3), compressed=(False, False, True),
                           versions=(33, 33, 33, 25, 19, 13, 28), editions=(4, 4, 3, 2))
+    cases += narrow_field_cases(ctx, ctx.n(60, 1500))
     P.attach_templates(cases)
     P.run_gen(cases)
     P.run_encode(cases)
